@@ -26,8 +26,8 @@ Fixpoint revs_rel (s : sdb) (bound : nat) (rv : list (Z * nat)) (stk : list (Z *
   | _, _ => False
   end.
 
-Record R (base : addr -> key -> word) (f : full) (r : ref) : Prop := {
-  R_base : forall a k, base a k = k_stor (kp (core f)) a k;
+Record R (k0 : keeper) (f : full) (r : ref) : Prop := {
+  R_kp : kp (core f) = k0;   (* the keeper is not written before Commit *)
   R_cur : veq (V (core f)) (cur r);
   R_clean : clean (kp (core f)) (journal (core f)) (V (core f));
   R_next : next_rev f = rnext r;
@@ -49,7 +49,7 @@ Qed.
 Lemma revs_rel_step s s' : ok s s' -> forall rv stk bound,
   (bound <= length (journal s))%nat -> revs_rel s bound rv stk -> revs_rel s' bound rv stk.
 Proof.
-  intros Hok. induction rv as [|[id n] rv IH]; intros [|[id' vw] stk] bound Hb H; simpl in *; auto.
+  intros Hok. induction rv as [|[id n] rv IH]; intros [|[id' vw] stk] bound Hb H; simpl in *; auto; try contradiction.
   destruct H as (Hid & Hn & Hs & Hr). split; [exact Hid|]. split; [exact Hn|]. split.
   - eapply snap_ok_step; eauto. lia.
   - apply IH; [lia|exact Hr].
@@ -99,7 +99,7 @@ Qed.
 Lemma revs_rel_unwind s n : (n <= length (journal s))%nat -> forall rv stk bound,
   (bound <= n)%nat -> revs_rel s bound rv stk -> revs_rel (unwind n s) bound rv stk.
 Proof.
-  intros Hn. induction rv as [|[id m] rv IH]; intros [|[id' vw] stk] bound Hb H; simpl in *; auto.
+  intros Hn. induction rv as [|[id m] rv IH]; intros [|[id' vw] stk] bound Hb H; simpl in *; auto; try contradiction.
   destruct H as (Hid & Hm & Hs & Hr). split; [exact Hid|]. split; [exact Hm|]. split.
   - apply snap_ok_unwind; auto. lia.
   - apply IH; [lia|exact Hr].
@@ -113,7 +113,7 @@ Lemma find_rel s : forall rv stk bound id,
   | _, _ => False
   end.
 Proof.
-  induction rv as [|[i n] rv IH]; intros [|[i' vw] stk] bound id H; simpl in *; auto.
+  induction rv as [|[i n] rv IH]; intros [|[i' vw] stk] bound id H; simpl in *; auto; try contradiction.
   destruct H as (Hid & Hn & Hs & Hr). subst i'. destruct (i =? id).
   - auto.
   - specialize (IH stk n id Hr). destruct (find_rev id rv) as [[m older]|], (find_copy id stk) as [[vw' older']|]; auto.
@@ -121,40 +121,50 @@ Proof.
 Qed.
 
 (** ** one step *)
-Theorem step_sim base f r o :
-  R base f r -> wf_step base r o ->
-  snd (step o f) = snd (rstep o r) /\ R base (fst (step o f)) (fst (rstep o r)).
+Definition is_core (o : op) : bool := match o with OSnapshot | ORevert _ => false | _ => true end.
+
+Lemma step_core_eq o f : is_core o = true ->
+  step o f = (with_core f (fst (step_core o (core f))), snd (step_core o (core f))).
+Proof. destruct o; try discriminate; intros _; cbn [step]; destruct (step_core _ (core f)); reflexivity. Qed.
+Lemma rstep_core_eq o r : is_core o = true ->
+  rstep o r = ({| cur := fst (vstep o (cur r)); stack := stack r; rnext := rnext r |}, snd (vstep o (cur r))).
+Proof. destruct o; try discriminate; intros _; cbn [rstep]; destruct (vstep _ (cur r)); reflexivity. Qed.
+
+Theorem step_sim k0 f r o :
+  R k0 f r -> wf_step (k_stor k0) r o ->
+  snd (step o f) = snd (rstep o r) /\ R k0 (fst (step o f)) (fst (rstep o r)).
 Proof.
   intros HR Hwf. pose proof HR as [HB HC HCl HN HRv].
-  assert (Hcore : forall o', (match o' with OSnapshot | ORevert _ => False | _ => True end) ->
+  assert (Hcore : forall o', is_core o' = true ->
                   wf_core (core f) o' ->
                   snd (step_core o' (core f)) = snd (vstep o' (cur r)) /\
-                  R base (with_core f (fst (step_core o' (core f))))
+                  R k0 (with_core f (fst (step_core o' (core f))))
                     {| cur := fst (vstep o' (cur r)); stack := stack r; rnext := rnext r |}).
   { intros o' _ Hw. destruct (sim_step_core o' (core f) Hw) as (Hret & HV & Hok).
     destruct (vstep_cong o' _ _ HC) as (Hret2 & HV2).
     split; [congruence|]. pose proof Hok as (K & _).
     split; cbn [core with_core cur stack rnext revs next_rev].
-    - intros a k. rewrite K. apply HB.
+    - rewrite K. exact HB.
     - eapply veq_trans; eauto.
     - apply (clean_step _ _ Hok HCl).
     - exact HN.
     - destruct Hok as (K' & new & J & Hrest).
       apply revs_rel_weaken with (b1 := length (journal (core f))); [rewrite J, app_length; lia|].
       apply (revs_rel_step (core f)); [split; [exact K'|exists new; split; [exact J|exact Hrest]] | lia | exact HRv]. }
-  assert (Hcreate : forall a, wf_create base (cur r) a -> wf_create (k_stor (kp (core f))) (V (core f)) a).
-  { intros a (H1 & H2). split; [intro k; rewrite <- HB; apply H1|].
+  assert (Hcreate : forall a, wf_create (k_stor k0) (cur r) a -> wf_create (k_stor (kp (core f))) (V (core f)) a).
+  { intros a (H1 & H2). split; [intro k; rewrite HB; apply H1|].
     rewrite (eq_acct _ _ HC a). destruct (v_acct (cur r) a); [|exact I].
     destruct H2 as (A & B & C & D). split; [exact A|]. split; [exact B|]. split; [exact C|]. intro k. rewrite (eq_stor _ _ HC a k). apply D. }
-  destruct o;
-    try (specialize (Hcore _ I); cbn [wf_core] in Hcore;
-         cbn [step rstep]; destruct (step_core _ (core f)) as [s1 x] eqn:E1; destruct (vstep _ (cur r)) as [v1 y] eqn:E2;
-         cbn [fst snd] in *; apply Hcore; try exact I; try (apply Hcreate; exact Hwf); fail).
+  destruct (is_core o) eqn:Hic.
+  { rewrite (step_core_eq o f Hic), (rstep_core_eq o r Hic). cbn [fst snd]. apply Hcore; [exact Hic|].
+    destruct o; try exact I. cbn [wf_core]. apply Hcreate. exact Hwf. }
+  destruct o; try discriminate.
   - (* Snapshot *)
     cbn [step rstep fst snd]. split; [rewrite HN; reflexivity|].
-    split; cbn [core with_core cur stack rnext revs next_rev]; auto; [rewrite HN; reflexivity|].
-    simpl. split; [reflexivity|]. split; [lia|]. split; [|exact HRv].
-    unfold snap_ok. rewrite Nat.sub_diag. simpl. split; [exact HC|]. eapply clean_veq; eauto.
+    split; cbn [core with_core cur stack rnext revs next_rev]; auto.
+    + rewrite HN; reflexivity.
+    + simpl. split; [exact HN|]. split; [lia|]. split; [|exact HRv].
+      unfold snap_ok. rewrite Nat.sub_diag. simpl. split; [exact HC|]. eapply clean_veq; eauto.
   - (* RevertToSnapshot *)
     cbn [step rstep]. cbn [wf_step] in Hwf.
     pose proof (find_rel (core f) (revs f) (stack r) _ id HRv) as Hf.
@@ -163,7 +173,7 @@ Proof.
     destruct Hf as (Hn & [HV HK] & Hr). cbn [fst snd]. split; [reflexivity|].
     destruct (unwind_spec n (core f) Hn) as (J & K & HU).
     split; cbn [core with_core cur stack rnext revs next_rev].
-    + intros a k. rewrite K. apply HB.
+    + rewrite K. exact HB.
     + eapply veq_trans; [exact HU|exact HV].
     + rewrite K, J. eapply clean_veq; [|exact HK]. apply veq_sym. eapply veq_trans; [exact HU|exact HV].
     + exact HN.
@@ -173,13 +183,13 @@ Proof.
 Qed.
 
 (** ** whole sequences *)
-Theorem run_sim base : forall ops f r,
-  R base f r -> wf_run base ops r ->
-  snd (run ops f) = snd (rrun ops r) /\ R base (fst (run ops f)) (fst (rrun ops r)).
+Theorem run_sim k0 : forall ops f r,
+  R k0 f r -> wf_run (k_stor k0) ops r ->
+  snd (run ops f) = snd (rrun ops r) /\ R k0 (fst (run ops f)) (fst (rrun ops r)).
 Proof.
   induction ops as [|o ops IH]; intros f r HR Hwf; simpl.
   - split; [reflexivity|exact HR].
-  - destruct Hwf as [Hw Hrest]. destruct (step_sim base f r o HR Hw) as (Hret & HR').
+  - destruct Hwf as [Hw Hrest]. destruct (step_sim k0 f r o HR Hw) as (Hret & HR').
     destruct (step o f) as [f1 x]. destruct (rstep o r) as [r1 y]. cbn [fst snd] in *.
     destruct (IH f1 r1 HR' Hrest) as (Hrets & HR'').
     destruct (run ops f1) as [f2 xs]. destruct (rrun ops r1) as [r2 ys]. cbn [fst snd] in *.
@@ -190,7 +200,7 @@ Qed.
 Lemma lookup_new k a : lookup (new_sdb k) a = kobj k a.
 Proof. rewrite lookup_def. reflexivity. Qed.
 
-Lemma R_init k : R (k_stor k) (new_full k) (ref_begin (world_of k)).
+Lemma R_init k : R k (new_full k) (ref_begin (world_of k)).
 Proof.
   split; cbn [core new_full cur ref_begin stack rnext revs next_rev].
   - reflexivity.
